@@ -119,8 +119,16 @@ class Gates:
         return None
 
 
-def gate_cuts(F, G, B):
+def gate_cuts(F, G, B, E=None):
     """Edges (bb, target) on which a gate test of a handle derived from argument r is known true: {r: set(edges)}."""
+    cuts = {}
+    for (bi, tgt, roots, _o) in gate_edges_with_order(F, G, B, E):
+        for r in roots:
+            cuts.setdefault(r, set()).add((bi, tgt))
+    return cuts
+
+
+def _gate_cuts_old(F, G, B):
     cuts = {}
     for bi, bl in enumerate(B.blocks):
         tt = bl["term"]
@@ -144,7 +152,100 @@ def gate_cuts(F, G, B):
     return cuts
 
 
-def gate_edges_with_order(F, G, B):
+def derived_gates(F, G, E):
+    """Functions that report the gate's verdict through their return variant: every returning path tagged Some/Ok went through a
+    gate-true edge on argument 1, every path tagged None/Err did not (e.g. get_mut, try_unique, try_as_unique)."""
+    if hasattr(G, "_derived"):
+        return G._derived
+    out = {}
+    for b in F.body_list:
+        if b["kind"] not in ("Fn", "AssocFn") or "output" not in b:
+            continue
+        ot = F.ty(b["output"])
+        if not (ot["k"] == "adt" and ot["path"] in ("core::option::Option", "core::result::Result")):
+            continue
+        B = cfg.Body(b)
+        G._derived = out  # guard against recursion through gate_edges_with_order
+        edges = [(x, y, o) for (x, y, roots, o) in _direct_gate_edges(F, G, B) if 1 in roots]
+        if not edges:
+            continue
+        try:
+            prs = E.toplevel(b["key"])
+        except Exception:
+            continue
+        pos = neg = 0
+        ok = True
+        orders = set()
+        for p in prs:
+            if p.exit != "ret" or p.tag is None:
+                continue
+            blocks = list(p.blocks)
+            passed = [(x, y, o) for (x, y, o) in edges for i in range(len(blocks) - 1) if blocks[i] == x and blocks[i + 1] == y]
+            if p.tag in ("Some", "Ok"):
+                pos += 1
+                if not passed:
+                    ok = False
+                orders |= set(o for (_x, _y, o) in passed)
+            else:
+                neg += 1
+                if passed:
+                    ok = False
+        if ok and pos and neg:
+            out[b["key"]] = sorted(orders, key=str)[0] if orders else None
+    G._derived = out
+    return out
+
+
+def gate_edges_with_order(F, G, B, E=None):
+    out = _direct_gate_edges(F, G, B)
+    if E is None:
+        return out
+    D = derived_gates(F, G, E)
+    if not D:
+        return out
+    for bi, bl in enumerate(B.blocks):
+        tt = bl["term"]
+        if tt["k"] != "switch":
+            continue
+        c = B.condition(tt["discr"])
+        # `f(x).is_some()` / `.is_none()` / `.is_ok()` / `.is_err()`
+        if c and "call" in c:
+            nm = atomics.callee_of(c["call"]) or ""
+            if nm.endswith(("::is_some", "::is_ok", "::is_none", "::is_err")) and c["call"]["args"]:
+                o = B.origin(c["call"]["args"][0], through_refs=True)
+                if o.get("kind") == "call" and atomics.callee_of(o["term"]) in D:
+                    roots = set()
+                    for a in o["term"]["args"][:1]:
+                        pl = operand_place(a)
+                        if pl is not None:
+                            roots |= root_args(B, pl["l"])
+                    positive = nm.endswith(("::is_some", "::is_ok"))
+                    for tgt, tv in B.switch_truth(tt).items():
+                        if (tv != c["neg"]) == positive:
+                            out.append((bi, tgt, roots, D[atomics.callee_of(o["term"])]))
+            continue
+        # `match f(x) { Some(..) / Ok(..) => .. }`
+        pl = operand_place(tt["discr"])
+        if pl is None:
+            continue
+        d = B.single_def(pl["l"])
+        if d and d[0] == "assign" and d[3]["k"] == "discr" and not d[3]["place"]["p"]:
+            o = B.origin_local(d[3]["place"]["l"])
+            if o.get("kind") == "call" and atomics.callee_of(o["term"]) in D:
+                ot = F.ty(F.body(atomics.callee_of(o["term"]))["output"])
+                pos_val = 1 if ot["path"] == "core::option::Option" else 0
+                roots = set()
+                for a in o["term"]["args"][:1]:
+                    apl = operand_place(a)
+                    if apl is not None:
+                        roots |= root_args(B, apl["l"])
+                for v, tgt in tt["arms"]:
+                    if v == pos_val:
+                        out.append((bi, tgt, roots, D[atomics.callee_of(o["term"])]))
+    return out
+
+
+def _direct_gate_edges(F, G, B):
     """All edges on which `count == 1` is known for a handle derived from some argument, with the ordering of the load:
     [(bb, target, roots, ordering)] - covers `if h.is_unique()` and the inlined `if load(h) == 1`."""
     out = []
@@ -410,7 +511,7 @@ def run(ctx, rep):
                         rep.ok("R-GATE", ik, "unsafe constructor: obligation moves to its call sites", cfg=tag)
                         continue
                     if cuts is None:
-                        cuts = gate_cuts(F, G, B)
+                        cuts = gate_cuts(F, G, B, E)
                     ok = _justified(F, E, B, cuts, roots, bi)
                     if ok:
                         rep.ok("R-GATE", ik, cfg=tag)
@@ -437,7 +538,7 @@ def run(ctx, rep):
                     if b.get("unsafe") and roots and b["key"] != callee:
                         unsafe_producers.setdefault(b["key"], set()).update(roots)
                     if cuts is None:
-                        cuts = gate_cuts(F, G, B)
+                        cuts = gate_cuts(F, G, B, E)
                     if _justified(F, E, B, cuts, roots, bi):
                         rep.ok("R-GATE", ik, cfg=tag)
                     else:
